@@ -29,8 +29,8 @@ Lt(p, q) == \/ Rank(p.a) < Rank(q.a)
             \/ Rank(p.a) = Rank(q.a) /\ p.o < q.o
 Le(p, q) == Lt(p, q) \/ (p.a = q.a /\ p.o = q.o)
 Eq(p, q) == p.a = q.a /\ p.o = q.o
-Max(p, q) == IF Lt(p, q) THEN q ELSE p
-Min(p, q) == IF Lt(p, q) THEN p ELSE q
+PMax(p, q) == IF Lt(p, q) THEN q ELSE p
+PMin(p, q) == IF Lt(p, q) THEN p ELSE q
 
 Zero == Pt("zero", 0)
 One  == Pt("zero", 1)
